@@ -37,7 +37,7 @@ ASSUMPTIONS = [
     'dict-valued measurement values have str keys',
 ]
 REQUIRED_COUNTERS = ['live_reads_compared', 'final_records_compared',
-                     'concurrent_reads_compared',
+                     'concurrent_reads_compared', 'concurrent_log_histories',
                      'json_documents_parsed', 'attachments_round_tripped']
 EXHAUSTIVE = {'quick': True, 'thorough': True}
 PLAN = {
@@ -73,10 +73,18 @@ def setup():
   eng.install()
   eng.enabled = False
   _S['engine'] = eng
+  from openhtf.core import test_record
+  from openhtf.util import logs
+  eng2 = pause.Engine([test_record.__file__, logs.__file__],
+                      lambda th: 'LA' if th.name == 'LA' else None)
+  eng2.install()
+  eng2.enabled = False
+  _S['engine_log'] = eng2
 
 
 def teardown():
   _S['engine'].uninstall()
+  _S['engine_log'].uninstall()
 
 
 def enumerated(tier):
@@ -102,6 +110,10 @@ def enumerated(tier):
   for ops_i in range(len(LIVE2_OPS)):
     for idx in range(70):
       yield {'k': 'live2', 'ops_i': ops_i, 'idx': idx}
+  # two threads log to the running test: LA is held at every line of its way
+  # into the record while LB logs
+  for idx in range(60):
+    yield {'k': 'log2', 'idx': idx}
   # serialisation histories
   m = 3
   for length in range(1, m + 1):
@@ -558,6 +570,110 @@ def run_json(case):
           'violations': viol, 'counters': c}
 
 
+_LOG2_POINTS = []
+
+
+def run_log2(case):
+  """Thread LA logs a line and is held at a line of its way through the record
+  handler; thread LB logs another line in the meantime.  Afterwards the
+  rendering of the record's log lines equals a from-scratch rendering of
+  TestRecord.log_records (same lines, same order)."""
+  import threading
+  H = pm.htf()
+  eng = _S['engine_log']
+  viol = []
+  c = {'live_reads_compared': 0, 'final_records_compared': 0,
+       'json_documents_parsed': 0, 'attachments_round_tripped': 0,
+       'concurrent_reads_compared': 0, 'concurrent_log_histories': 0}
+  out = {}
+
+  def scenario(target):
+    @H.PhaseOptions(requires_state=True)
+    def put(state):
+      lg = state.state_logger
+      lg.info('line-0')
+
+      def log_a():
+        lg.info('line-A')
+        lg.warning('line-A2')
+
+      def log_b():
+        lg.info('line-B')
+        out['b_done'] = True
+
+      eng.arm(target)
+      eng.enabled = True
+      try:
+        ta = threading.Thread(target=log_a, name='LA')
+        ta.start()
+        if target is not None:
+          r = eng.run_action_at_pause(log_b, wait_s=4, hold_s=0.2)
+          out['reached'], out['blocked'] = r['reached'], r['blocked']
+          if r.get('_thread'):
+            r['_thread'].join(10)
+        ta.join(10)
+        if not out.get('b_done'):
+          log_b()
+      finally:
+        eng.enabled = False
+        eng.release()
+      out['seen'] = dict(eng.seen)
+      rec = state.test_record
+      out['objects'] = [(r.message, r.timestamp_millis, r.level)
+                        for r in list(rec.log_records)]
+      out['rendered'] = [(d['message'], d['timestamp_millis'], d['level'])
+                         for d in rec.as_base_types()['log_records']]
+
+    t = H.Test(put)
+    recs = []
+    t.add_output_callbacks(recs.append)
+    t.execute()
+    pm.settle()
+    pm.prune_handlers()
+    if recs:
+      out['final_objects'] = [(r.message, r.timestamp_millis, r.level)
+                              for r in recs[0].log_records]
+      out['final_rendered'] = [(d['message'], d['timestamp_millis'], d['level'])
+                               for d in recs[0].as_base_types()['log_records']]
+
+  if not _LOG2_POINTS:
+    scenario(None)
+    _LOG2_POINTS.extend((k, h) for k, n in sorted(out['seen'].items())
+                        for h in range(1, min(n, 2) + 1))
+  if case['idx'] >= len(_LOG2_POINTS):
+    return {'sig': None, 'violations': [], 'counters': c, 'evaluations': 0,
+            'sample': False}
+  target = _LOG2_POINTS[case['idx']]
+  out.clear()
+  scenario(target)
+  if out.get('reached'):
+    c['concurrent_log_histories'] = 1
+  ctx = {'first_logger_held_at': [list(target[0]), target[1]],
+         'second_logger_blocked': out.get('blocked')}
+  for a, b, where in ((out.get('objects'), out.get('rendered'), 'running'),
+                      (out.get('final_objects'), out.get('final_rendered'), 'final')):
+    if a is None or b is None:
+      viol.append({'mechanism': 'no-record', 'detail': ctx})
+      break
+    c['final_records_compared'] += 1
+    if a != b:
+      i = next((j for j, (x, y) in enumerate(zip(a, b)) if x != y), min(len(a), len(b)))
+      viol.append({'mechanism': 'log-lines-rendered-differ-from-log_records:' + (
+          'order' if sorted(a) == sorted(b) else 'content'),
+                   'detail': dict(ctx, where=where, index=i,
+                                  objects=[x[0] for x in a][:8],
+                                  rendered=[x[0] for x in b][:8])})
+      break
+    msgs = [x[0] for x in a]
+    if where == 'running' and not all(m in msgs for m in ('line-0', 'line-A', 'line-A2',
+                                                          'line-B')):
+      viol.append({'mechanism': 'logged-line-missing-from-record',
+                   'detail': dict(ctx, lines=msgs[:10])})
+      break
+  return {'sig': ['log2', list(target[0]), target[1]], 'violations': viol[:3],
+          'counters': c}
+
+
 def run_case(case):
-  return {'live': run_live, 'live2': run_live2, 'record': run_record,
+  return {'live': run_live, 'live2': run_live2, 'log2': run_log2, 'record': run_record,
           'json': run_json}[case['k']](case)
